@@ -68,6 +68,10 @@ func (vm *VM) runRecoverable() (err error) {
 	defer func() {
 		if panicking {
 			msg := recover()
+			// Discard the select cases collected so far: if the panic
+			// occurred in reflect.Select, or between a Case and its
+			// Select instruction, they must not leak into the next select.
+			vm.cases = vm.cases[:0]
 			err = vm.convertPanic(msg)
 		}
 	}()
